@@ -160,6 +160,37 @@ def spec_de2000(lab1, lab2):
     return sqrt(tL ** 2 + tC ** 2 + tH ** 2 + RT * tC * tH)
 
 
+def spec_hue_to_rgb(m1, m2, h):
+    # CSS Color 3, section 4.2.4: HOW TO RETURN hue.to.rgb(m1, m2, h)
+    if h < 0:
+        h = h + 1
+    if h > 1:
+        h = h - 1
+    if h * 6 < 1:
+        return m1 + (m2 - m1) * h * 6
+    if h * 2 < 1:
+        return m2
+    if h * 3 < 2:
+        return m1 + (m2 - m1) * (2 / 3 - h) * 6
+    return m1
+
+
+def spec_css_hsl(hsl):
+    # CSS Color 3, section 4.2.4: HOW TO RETURN hsl.to.rgb(h, s, l); h already normalised to [0, 360), s and l in [0, 1];
+    # each channel is then the nearest 8-bit value
+    hdeg, s, l = hsl
+    h = hdeg / 360
+    if l <= 0.5:
+        m2 = l * (s + 1)
+    else:
+        m2 = l + s - l * s
+    m1 = l * 2 - m2
+    r = spec_hue_to_rgb(m1, m2, h + 1 / 3)
+    g = spec_hue_to_rgb(m1, m2, h)
+    b = spec_hue_to_rgb(m1, m2, h - 1 / 3)
+    return (nearest(r * 255), nearest(g * 255), nearest(b * 255))
+
+
 def spec_blend(fg, alpha, bg):
     # CSS compositing, source-over, per channel
     r, g, b = fg
